@@ -558,6 +558,31 @@ func main() {
 				wrapBase = iexpr(se.Low, map[string]string{"numRet": ".base"})
 			}
 		}
+		// the frame is allocated by the function literal handed to reflect.MakeFunc (one frame per invocation)
+		perCall := func(fd *ast.FuncDecl, stmt string) string {
+			mk := find(fd, func(n ast.Node) bool {
+				ce, ok := n.(*ast.CallExpr)
+				return ok && str(ce.Fun) == "reflect.MakeFunc" && len(ce.Args) == 2
+			})
+			if mk == nil {
+				note("%s: no reflect.MakeFunc call", fd.Name.Name)
+				return "false"
+			}
+			lit, ok := mk.(*ast.CallExpr).Args[1].(*ast.FuncLit)
+			if !ok {
+				note("%s: reflect.MakeFunc is not given a function literal", fd.Name.Name)
+				return "false"
+			}
+			all := findAll(fd, func(n ast.Node) bool { return str(n) == stmt })
+			in := findAll(lit, func(n ast.Node) bool { return str(n) == stmt })
+			if len(all) != 1 {
+				note("%s: %d statements `%s`", fd.Name.Name, len(all), stmt)
+				return "false"
+			}
+			return leanBool(len(in) == 1)
+		}
+		wrapPerCall := perCall(gw, "fr := newFrame(f, len(def.types), f.runid())")
+		getFuncPerCall := perCall(gf, "fr2 := newFrame(fr, len(n.types), fr.runid())")
 		skipShort := leanBool(find(gw, func(n ast.Node) bool {
 			is, ok := n.(*ast.IfStmt)
 			return ok && str(is.Cond) == "i >= len(d)" && len(is.Body.List) == 1 && str(is.Body.List[0]) == "break"
@@ -638,6 +663,8 @@ def facts : Facts :=
     defaultDstIdx := %s,
     nestedReadIdx := %s,
     wrapFrameIsDefTypes := %s,
+    wrapFramePerCall := %s,
+    getFuncFramePerCall := %s,
     wrapArgBase := %s,
     wrapRcvrShift := %s,
     wrapResLo := %s,
@@ -653,7 +680,7 @@ def sourceHashes : List (String × String) :=
 end YaegiVerif.Generated.C07
 `, arms, common.LeanStrList(outerArms), recvGuard, rcvrCond, lo(variadicSub), argCmp, argElem, defCmp, defElem,
 			callEll, callOther, deferCall, assignSrc, assignDst, retDst, retBase, defDst, nestedRead,
-			wrapFrame, wrapBase, lo(wrapShift), lo(wLo), wHi, skipShort, lo(gLo), gHi, common.LeanStrList(notes), hashes)
+			wrapFrame, wrapPerCall, getFuncPerCall, wrapBase, lo(wrapShift), lo(wLo), wHi, skipShort, lo(gLo), gHi, common.LeanStrList(notes), hashes)
 		return src, nil
 	})
 }
